@@ -489,4 +489,225 @@ theorem fsExec_writes {α : Type} (fs : Fs α) (t : List α) (chunks : List (Lis
     rw [this.1, this.2]
     simp [fsStep, List.append_assoc]
 
+
+/-! ### The decoded index: comparison, sort, validation -/
+
+theorem bytesLe_refl (a : List Nat) : bytesLe a a = true := by
+  induction a with
+  | nil => rfl
+  | cons x xs ih => simp [bytesLe, ih]
+
+theorem bytesLe_total (a b : List Nat) (h : bytesLe a b = false) : bytesLe b a = true := by
+  induction a generalizing b with
+  | nil => simp [bytesLe] at h
+  | cons x xs ih =>
+    cases b with
+    | nil => rfl
+    | cons y ys =>
+      unfold bytesLe at h ⊢
+      by_cases h1 : x < y
+      · simp [h1] at h
+      · by_cases h2 : y < x
+        · simp [h2]
+        · simp [h1, h2] at h ⊢
+          exact ih ys h
+
+theorem bytesLe_trans (a b c : List Nat) (h1 : bytesLe a b = true) (h2 : bytesLe b c = true) :
+    bytesLe a c = true := by
+  induction a generalizing b c with
+  | nil => rfl
+  | cons x xs ih =>
+    cases b with
+    | nil => simp [bytesLe] at h1
+    | cons y ys =>
+      cases c with
+      | nil => simp [bytesLe] at h2
+      | cons z zs =>
+        unfold bytesLe at h1 h2 ⊢
+        by_cases hxy : x < y
+        · by_cases hyz : y < z
+          · have : x < z := by omega
+            simp [this]
+          · by_cases hzy : z < y
+            · simp [hyz, hzy] at h2
+            · have : x < z := by omega
+              simp [this]
+        · by_cases hyx : y < x
+          · simp [hxy, hyx] at h1
+          · have hxe : x = y := by omega
+            subst hxe
+            simp [hxy] at h1
+            by_cases hyz : x < z
+            · simp [hyz]
+            · by_cases hzy : z < x
+              · simp [hyz, hzy] at h2
+              · simp [hyz, hzy] at h2 ⊢
+                exact ih ys zs h1 h2
+
+theorem bytesLe_antisymm (a b : List Nat) (h1 : bytesLe a b = true) (h2 : bytesLe b a = true) :
+    a = b := by
+  induction a generalizing b with
+  | nil => cases b with
+    | nil => rfl
+    | cons y ys => simp [bytesLe] at h2
+  | cons x xs ih =>
+    cases b with
+    | nil => simp [bytesLe] at h1
+    | cons y ys =>
+      unfold bytesLe at h1 h2
+      by_cases hxy : x < y
+      · have : ¬ y < x := by omega
+        simp [hxy, this] at h2
+      · by_cases hyx : y < x
+        · simp [hxy, hyx] at h1
+        · have hxe : x = y := by omega
+          subst hxe
+          simp [hxy] at h1 h2
+          rw [ih ys h1 h2]
+
+theorem rawLe_total (a b : RawEntry) (h : rawLe a b = false) : rawLe b a = true := by
+  unfold rawLe at h ⊢
+  by_cases ha : a.null = true <;> by_cases hb : b.null = true <;> simp_all
+  exact bytesLe_total _ _ h
+
+theorem rawLe_trans (a b c : RawEntry) (h1 : rawLe a b = true) (h2 : rawLe b c = true) :
+    rawLe a c = true := by
+  unfold rawLe at h1 h2 ⊢
+  by_cases ha : a.null = true <;> by_cases hb : b.null = true <;> by_cases hc : c.null = true <;>
+    simp_all
+  exact bytesLe_trans _ _ _ h1 h2
+
+theorem mem_insertRaw (a x : RawEntry) (ys : List RawEntry) :
+    a ∈ insertRaw x ys ↔ a = x ∨ a ∈ ys := by
+  induction ys with
+  | nil => simp [insertRaw]
+  | cons y ys ih =>
+    unfold insertRaw
+    split
+    · simp
+    · simp [ih]
+      constructor
+      · rintro (h | h | h)
+        · exact Or.inr (Or.inl h)
+        · exact Or.inl h
+        · exact Or.inr (Or.inr h)
+      · rintro (h | h | h)
+        · exact Or.inr (Or.inl h)
+        · exact Or.inl h
+        · exact Or.inr (Or.inr h)
+
+theorem mem_sortRaw (a : RawEntry) (es : List RawEntry) : a ∈ sortRaw es ↔ a ∈ es := by
+  induction es with
+  | nil => simp [sortRaw]
+  | cons x xs ih => simp [sortRaw, mem_insertRaw, ih]
+
+/-- Sorted by `compare`. -/
+def RawSorted : List RawEntry → Prop
+  | [] => True
+  | x :: xs => (∀ y ∈ xs, rawLe x y = true) ∧ RawSorted xs
+
+theorem insertRaw_sorted (x : RawEntry) (ys : List RawEntry) (h : RawSorted ys) :
+    RawSorted (insertRaw x ys) := by
+  induction ys with
+  | nil => simp [insertRaw, RawSorted]
+  | cons y ys ih =>
+    unfold insertRaw
+    split
+    · next hle =>
+      refine ⟨?_, h⟩
+      intro z hz
+      rcases List.mem_cons.mp hz with rfl | hz
+      · exact hle
+      · exact rawLe_trans _ _ _ hle (h.1 z hz)
+    · next hgt =>
+      refine ⟨?_, ih h.2⟩
+      intro z hz
+      rcases (mem_insertRaw z x ys).mp hz with rfl | hz
+      · exact rawLe_total _ _ (by simpa using hgt)
+      · exact h.1 z hz
+
+theorem sortRaw_sorted (es : List RawEntry) : RawSorted (sortRaw es) := by
+  induction es with
+  | nil => trivial
+  | cons x xs ih => exact insertRaw_sorted x _ ih
+
+theorem insertRaw_perm (x : RawEntry) (ys : List RawEntry) : (insertRaw x ys).Perm (x :: ys) := by
+  induction ys with
+  | nil => exact List.Perm.refl _
+  | cons y ys ih =>
+    unfold insertRaw
+    split
+    · exact List.Perm.refl _
+    · exact (List.Perm.cons y ih).trans (List.Perm.swap x y ys)
+
+theorem sortRaw_perm (es : List RawEntry) : (sortRaw es).Perm es := by
+  induction es with
+  | nil => exact List.Perm.refl _
+  | cons x xs ih => exact (insertRaw_perm x _).trans (List.Perm.cons x ih)
+
+/-- Key numbers name key strings faithfully within a document. -/
+def KeysInj (num : List Nat → Nat) (l : List RawEntry) : Prop :=
+  ∀ a ∈ l, ∀ b ∈ l, num a.key = num b.key → a.key = b.key
+
+/-- An entry that the sort moves in front of another one is independent of it: one of them is
+`null`, or their key strings differ. -/
+theorem indep_of_not_rawLe (fx : Bool) (num : List Nat → Nat) (x y : RawEntry)
+    (hinj : num x.key = num y.key → x.key = y.key) (h : rawLe x y = false) :
+    Indep (classify fx num x) (classify fx num y) := by
+  unfold rawLe at h
+  by_cases hx : x.null = true
+  · exact Or.inr (Or.inl (by simp [classify, hx]))
+  · by_cases hy : y.null = true
+    · exact Or.inr (Or.inr (by simp [classify, hy]))
+    · simp [hx, hy] at h
+      refine Or.inl ?_
+      intro hk
+      have : x.key = y.key := hinj hk
+      rw [this, bytesLe_refl] at h
+      cases h
+
+theorem reorder_insertRaw (fx : Bool) (num : List Nat → Nat) (x : RawEntry) (ys : List RawEntry)
+    (hinj : KeysInj num (x :: ys)) :
+    Reorder ((x :: ys).map (classify fx num)) ((insertRaw x ys).map (classify fx num)) := by
+  induction ys with
+  | nil => exact .refl _
+  | cons y ys ih =>
+    unfold insertRaw
+    split
+    · exact .refl _
+    · next hgt =>
+      have hi : Indep (classify fx num x) (classify fx num y) :=
+        indep_of_not_rawLe fx num x y
+          (hinj x (by simp) y (by simp)) (by simpa using hgt)
+      have hinj' : KeysInj num (x :: ys) := by
+        intro a ha b hb
+        apply hinj
+        · rcases List.mem_cons.mp ha with h | h
+          · simp [h]
+          · simp [h]
+        · rcases List.mem_cons.mp hb with h | h
+          · simp [h]
+          · simp [h]
+      exact .trans (.swap [] _ _ (ys.map (classify fx num)) hi)
+        (Reorder.cons (classify fx num y) (ih hinj'))
+
+theorem reorder_sortRaw (fx : Bool) (num : List Nat → Nat) (es : List RawEntry)
+    (hinj : KeysInj num es) :
+    Reorder (es.map (classify fx num)) ((sortRaw es).map (classify fx num)) := by
+  induction es with
+  | nil => exact .refl _
+  | cons x xs ih =>
+    have hxs : KeysInj num xs := fun a ha b hb => hinj a (by simp [ha]) b (by simp [hb])
+    have hins : KeysInj num (x :: sortRaw xs) := by
+      intro a ha b hb
+      apply hinj
+      · rcases List.mem_cons.mp ha with h | h
+        · simp [h]
+        · simp [(mem_sortRaw a xs).mp h]
+      · rcases List.mem_cons.mp hb with h | h
+        · simp [h]
+        · simp [(mem_sortRaw b xs).mp h]
+    exact .trans (Reorder.cons (classify fx num x) (ih hxs))
+      (reorder_insertRaw fx num x (sortRaw xs) hins)
+
 end Agd.Refresh
